@@ -44,9 +44,16 @@ fn demo(script: &str, seeds: u64, preempt: u32) {
         let spec = shellrun::ScriptSpec {
             script: script.to_string(),
             dash_c: true,
+            options: std::env::var("DEMO_OPTS").map(|s| s.split_whitespace().map(String::from).collect()).unwrap_or_default(),
             ..Default::default()
         };
         let o = shellrun::run_script_with(&spec, &cfg, Decider::record(Rng::stream(1, 0, seed)), |w| {
+            if let Ok(f) = std::env::var("DEMO_FEED") {
+                shellrun::plumb_slow_stdin(
+                    w,
+                    f.split_whitespace().enumerate().map(|(j, n)| (n.parse().unwrap_or(1), format!("d{j} x\n").into_bytes())).collect(),
+                );
+            }
             if std::env::var("DEMO_IGNORE_USR2").is_ok() {
                 use yash_env::system::Sigaction as _;
                 w.system.sigaction(yash_env::system::r#virtual::SIGUSR2, yash_env::system::Disposition::Ignore).ok();
@@ -68,6 +75,16 @@ fn demo(script: &str, seeds: u64, preempt: u32) {
             ),
             Some(e) => format!("PANIC {e}"),
         };
+        if std::env::var("DEMO_TRACE").is_ok() && o.outcome.stalled && !outcomes.contains_key(&key) {
+            println!("=== trace of seed {seed} (stalled)");
+            for l in shellrun::history_tail(&o.history, 200) {
+                println!("#{} pid={} {} a={} b={} {}", l.seq, l.pid, l.kind, l.a, l.b, l.text);
+            }
+            for d in &o.decisions {
+                print!("{}:{}/{} ", d.tag, d.v, d.n);
+            }
+            println!();
+        }
         *outcomes.entry(key).or_insert(0) += 1;
     }
     for (k, v) in outcomes {
